@@ -164,7 +164,7 @@ def run_stream(spec, prop, schema):
     paths["git_styles"] = env.git_style_variants(os.path.join(scratch, "paths-%s" % spec.get("shard", 0)))
     os.chdir(scratch)
     r = random.Random(spec["seed"])
-    variants = ["full", "diffonly", "bare", "spaced"]
+    variants = ["full", "diffonly", "bare", "spaced", "diffnodiff3"]
     if "replay" in spec:
         c = spec["replay"]["case"]
         merge_case(col, paths, c.get("class", "replay"), c["base"], c["local"], c["remote"], c.get("info"), c["config"],
